@@ -24,7 +24,7 @@ META = {
                             'judged_lattice_meet'],
     'required_counters': ['judged_concept_join', 'judged_concept_meet', 'judged_lattice_join',
                           'judged_lattice_meet', 'judged_empty_join', 'judged_empty_meet',
-                          'trace_laws_checked', 'join_adds_objects'],
+                          'trace_laws_checked', 'join_adds_objects', 'judged_orphaned_concepts'],
     'shards': {'quick': 16, 'thorough': 16},
     'exhaustive': {'quick': 'all tables <= 3x3 x all ordered pairs of concepts',
                    'thorough': 'all tables <= 3x3, 3x4, 4x3, 4x4 x all ordered pairs'},
@@ -228,6 +228,9 @@ def cases(tier, seed, spec):
     yield from gen.ctx_stream(tier, seed)
 
 
+ORPHANS = []
+
+
 def run_case(concepts, case, spec):
     rng = common.rng_for(case, spec)
     ctx = common.build_or_skip(concepts, case)
@@ -280,6 +283,35 @@ def run_case(concepts, case, spec):
         call(lat.meet, arg)
     call(lat.join, [])
     call(lat.meet, ())
+    # concepts that outlive every other reference to their lattice and context
+    if sl.n <= 40 and len(ORPHANS) < 8:
+        c2 = common.build_or_skip(concepts, case)
+        l2 = common.get_lattice(c2) if c2 is not None else RAISED
+        if l2 is not RAISED:
+            ms = list(l2)
+            exp = []
+            for _ in range(6):
+                a, b = rng.randrange(len(ms)), rng.randrange(len(ms))
+                exp.append((a, b, sl.join([a, b]), sl.meet([a, b])))
+            if len(ms) == sl.n:
+                ORPHANS.append((ms, exp))
+        del c2, l2
+    elif len(ORPHANS) >= 8:
+        import gc
+        common.drop_views()
+        gc.collect()
+        for ms, exp in ORPHANS:
+            for a, b, j, m_ in exp:
+                x, y = ms[a], ms[b]
+                gj, gm = call(lambda: x | y), call(lambda: x & y)
+                COL.count('judged_orphaned_concepts')
+                if gj is RAISED or gm is RAISED:
+                    COL.violation('concept_join', 'concept_join:raised-on-concepts-that-outlived-their-lattice',
+                                  'a member', 'exception')
+                elif gj is not ms[j] or gm is not ms[m_]:
+                    COL.violation('concept_join', 'concept_join:wrong-on-concepts-that-outlived-their-lattice',
+                                  [repr(ms[j]), repr(ms[m_])], [repr(gj), repr(gm)])
+        ORPHANS.clear()
     old = POOL.older(rng)
     if old is not None:
         olat, omem = old
